@@ -316,11 +316,22 @@ func lockOrder(p *engine.Prog, la *engine.LockAnalysis, r *engine.Report, rule s
 	edges := map[string]lockEdge{}
 	var reent []string
 	for _, f := range fns {
+		var may map[ssa.Instruction]engine.LSet
 		for _, b := range f.Blocks {
 			for _, ins := range b.Instrs {
 				c, ok := ins.(*ssa.Call)
 				if !ok {
 					continue
+				}
+				// a direct Lock of a lock that may still be held on some path (e.g. a loop iteration that
+				// continues without unlocking)
+				if op, isOp := engine.LockOpOf(c); isOp && op.Acquire && track(op.ID) {
+					if may == nil {
+						may = la.MayBefore(f)
+					}
+					if m := may[c]; m.Has(op.ID) && !(m.Mode(op.ID) == engine.LockR && op.Mode == engine.LockR) && !la.HeldAt(c).Has(op.ID) {
+						reent = append(reent, fmt.Sprintf("%s: %s acquired again while it may still be held on some path (%s)", p.InstrPos(c), op.ID, engine.RelName(f)))
+					}
 				}
 				held := la.HeldAt(c)
 				if held.Top || len(held.M) == 0 {
